@@ -116,6 +116,18 @@ class MayRaise:
                     b = _len_bound_literal(c, pol, want_upper=True)
                     if b and b[0] in (("param", "payload"),) or (b and b[0][0] in ("field", "fieldv")):
                         k = max(k, b[1] + 1)  # raise when len <= b  => afterwards len >= b+1
+                if len(e.dnf or ()) > 1:
+                    # one raise reached on several paths (a validation status checked once): a path made of the length test and of "the payload is there"
+                    # alone covers every payload that is too short
+                    for conj in e.dnf:
+                        for c, pol in conj:
+                            b = _len_bound_literal(c, pol, want_upper=True)
+                            if not (b and (b[0] in (("param", "payload"),) or b[0][0] in ("field", "fieldv"))):
+                                continue
+                            rest = [(c2, p2) for c2, p2 in conj if (c2, p2) != (c, pol)]
+                            present = lambda c2, p2: c2[0] == "cmp" and c2[3] == ("const", None) and ((c2[1] in ("is not", "!=") and p2) or (c2[1] in ("is", "==") and not p2))  # noqa: E731
+                            if all(present(c2, p2) for c2, p2 in rest):
+                                k = max(k, b[1] + 1)
         self._payload_min = k
         return k
 
@@ -394,6 +406,12 @@ class MayRaise:
                         # not evident from the return statements: decide on the returned *terms* (a result kept in a loop-carried variable, a call's result passed on)
                         ok = self._returns_arity(q, n, 0)
                 return ok and any_pkg
+        if isinstance(val, ast.Name) and val.id not in self._f.params:
+            # a local bound once, to a value of that arity: `result = self.read(); raw, parsed = result`
+            binds = [x for x in walk_no_nested(self._f.node) if isinstance(x, ast.Assign) and len(x.targets) == 1 and isinstance(x.targets[0], ast.Name) and x.targets[0].id == val.id]
+            stores = [x for x in walk_no_nested(self._f.node) if isinstance(x, ast.Name) and x.id == val.id and isinstance(x.ctx, (ast.Store, ast.Del))]
+            if len(binds) == 1 and len(stores) == 1 and not isinstance(binds[0].value, ast.Name):
+                return self._arity_ok(t, binds[0].value)
         return False
 
     def _returns_arity(self, q: str, n: int, depth: int) -> bool:
@@ -591,6 +609,41 @@ class MayRaise:
                         return True
         return False
 
+    def _number_typed(self, e, depth=0) -> bool:
+        """The expression is a number whatever the data: len() / ord() / int.from_bytes() / .count() results, arithmetic on such values, or a
+        local every binding of which (in the function being summarised) is one of these - int() / float() of it cannot raise."""
+        if isinstance(e, ast.Constant):
+            return isinstance(e.value, (int, float)) and not isinstance(e.value, bool)
+        if isinstance(e, ast.BinOp):
+            return self._number_typed(e.left, depth) and self._number_typed(e.right, depth)
+        if isinstance(e, ast.UnaryOp) and isinstance(e.op, (ast.USub, ast.UAdd, ast.Invert)):
+            return self._number_typed(e.operand, depth)
+        if isinstance(e, ast.Call):
+            fn = norm(e.func)
+            if fn in ("len", "ord", "int.from_bytes", "abs") or fn.endswith((".count", ".bit_length")):
+                return True
+            if fn in ("int", "float") and len(e.args) == 1:
+                return self._number_typed(e.args[0], depth)
+            return False
+        if isinstance(e, ast.Subscript) and isinstance(e.slice, ast.Constant) and isinstance(e.slice.value, int):
+            # an element of a bytes value is an int: only when the base is evidently bytes (a slice or subscript chain is not followed)
+            return False
+        if isinstance(e, ast.Name) and depth < 3:
+            f = getattr(self, "_f", None)
+            if f is None or e.id in f.params:
+                return False
+            assigns = [n for n in walk_no_nested(f.node) if isinstance(n, ast.Assign) and len(n.targets) == 1 and isinstance(n.targets[0], ast.Name) and n.targets[0].id == e.id]
+            stores = [n for n in walk_no_nested(f.node) if isinstance(n, ast.Name) and n.id == e.id and isinstance(n.ctx, (ast.Store, ast.Del))]
+            if not assigns or len(stores) != len(assigns):
+                return False
+            if not any(isinstance(n, (ast.For, ast.While)) for n in walk_no_nested(f.node)):
+                # straight-line function: only the bindings that stand before the use can reach it (`mid = <int>; ...; mid = f"{int(mid)}..."`);
+                # a binding whose right-hand side contains the use is evaluated before it rebinds
+                pos = (getattr(e, "lineno", 0), getattr(e, "col_offset", 0))
+                assigns = [a for a in assigns if (a.lineno, a.col_offset) < pos and not any(x is e for x in ast.walk(a.value))] or assigns
+            return all(isinstance(a.value, ast.BinOp) or self._number_typed(a.value, depth + 1) for a in assigns)
+        return False
+
     def _call(self, n: ast.Call) -> set[Raise]:
         out = set()
         fname = norm(n.func)
@@ -601,6 +654,7 @@ class MayRaise:
             # int()/float() of an int-typed arithmetic expression cannot raise
             arg0 = n.args[0] if n.args else None
             arith = isinstance(arg0, (ast.BinOp, ast.Constant)) and not (isinstance(arg0, ast.Constant) and isinstance(arg0.value, str))
+            arith = arith or (arg0 is not None and self._number_typed(arg0))
             if not (fname in ("int", "float") and arith and len(n.args) == 1):
                 for c in CALL_RAISES[fname]:
                     out.add(self._mk(c, n))
